@@ -1,9 +1,9 @@
 #!/bin/bash
-# usage: confirm_seed.sh <worktree> <outdir> <k> <property>
+# usage: confirm_seed.sh <worktree> <outdir> <k> <property> [store-as-k]
 # Confirms a sub-agent's seeded change in its scratch worktree: builds, full suite passes with the
 # change, demo fails with it and passes without. On success copies it to /verif/seeded/<prop>-<k>/.
 set -u
-WT=$1; OUT=$2; K=$3; ID=$4
+WT=$1; OUT=$2; K=$3; ID=$4; SK=${5:-$K}
 export GOFLAGS=-mod=mod GOPROXY=off
 D=$OUT/$K
 LOG=/tmp/confirm-$ID-$K.log
@@ -29,8 +29,8 @@ unshare -rn sh -c "ip link set lo up && $RUN" >>$LOG 2>&1; WITHOUT=$?
 rm -f $DEST/$DEMO
 git clean -fdq
 if [ $WITH -ne 0 ] && [ $WITHOUT -eq 0 ]; then
-  mkdir -p /verif/seeded/$ID-$K && cp $D/patch.diff $D/$DEMO $D/meta.json /verif/seeded/$ID-$K/
-  echo "$ID/$K: CONFIRMED (suite passes with change; demo fails with, passes without)"
+  mkdir -p /verif/seeded/$ID-$SK && cp $D/patch.diff $D/$DEMO $D/meta.json /verif/seeded/$ID-$SK/
+  echo "$ID/$SK: CONFIRMED (suite passes with change; demo fails with, passes without)"
 else
   echo "$ID/$K: demo not discriminating (with=$WITH without=$WITHOUT)"; exit 1
 fi
